@@ -24,6 +24,12 @@ type SyncClock struct {
 	RTPTimeUnit float64 // RTP时间单位，每个RTP时间的纳秒数
 
 	initOn time.Time // 初始化时间
+
+	// 32 位 RTP 时间戳的 64 位展开状态(约 13 小时@90kHz 回绕一次)
+	lastRTP     uint32 // 最近一次换算的 RTP 时间戳
+	hasLast     bool
+	wraps       int64 // lastRTP 已回绕的次数
+	anchorWraps int64 // 记录 RTPTime 时的回绕次数
 }
 
 // Init 初始化同步时钟
@@ -44,6 +50,7 @@ func (sc *SyncClock) Decode(data []byte) (ok bool) {
 		msw := binary.BigEndian.Uint32(data[8:])
 		lsw := binary.BigEndian.Uint32(data[12:])
 		sc.RTPTime = binary.BigEndian.Uint32(data[16:])
+		sc.anchorWraps = sc.wraps
 		sc.NTPTime = int64(msw-jan1970)*int64(time.Second) + (int64(lsw)*1000_000_000)>>32
 		ok = true
 	}
@@ -55,14 +62,32 @@ func (sc *SyncClock) RelativeNtpNow() int64 {
 	return int64(time.Now().Sub(sc.initOn))
 }
 
+// extend 把 32 位 RTP 时间戳展开成 64 位；相邻两次换算的时间戳相差不到 2^31
+func (sc *SyncClock) extend(rtptime uint32) int64 {
+	if sc.hasLast {
+		if rtptime < sc.lastRTP && sc.lastRTP-rtptime > 1<<31 {
+			sc.wraps++ // 向前回绕
+		} else if rtptime > sc.lastRTP && rtptime-sc.lastRTP > 1<<31 {
+			sc.wraps-- // 回绕点之前的乱序包
+		}
+	}
+	sc.lastRTP, sc.hasLast = rtptime, true
+	return int64(rtptime) + sc.wraps<<32
+}
+
+// anchor RTPTime 的 64 位展开值
+func (sc *SyncClock) anchor() int64 {
+	return int64(sc.RTPTime) + sc.anchorWraps<<32
+}
+
 // RelativeNtp .
 func (sc *SyncClock) RelativeNtp(rtptime uint32) int64 {
-	diff := int64(rtptime) - int64(sc.RTPTime)
+	diff := sc.extend(rtptime) - sc.anchor()
 	return int64(float64(diff) * sc.RTPTimeUnit)
 }
 
 // AbsoluteNtp .
 func (sc *SyncClock) AbsoluteNtp(rtptime uint32) int64 {
-	diff := int64(rtptime) - int64(sc.RTPTime)
+	diff := sc.extend(rtptime) - sc.anchor()
 	return sc.NTPTime + int64(float64(diff)*sc.RTPTimeUnit)
 }
